@@ -93,13 +93,19 @@ def main(argv) -> int:
                     def still_unknown(o, _cls=out.violation):
                         return F.match(known, prop, _cls, o.info) is None
 
+                    if hasattr(mod, "concretise"):
+                        sc2 = mod.concretise(json.loads(jdump(sc)), out)
+                        if sc2 is not None:
+                            o_c = run_scenario(mod, sc2)
+                            if (o_c.violation == out.violation and not o_c.error) or sc2.get("attempts"):
+                                sc = sc2
                     best, execs = minimise(mod, sc, out.violation, accept=still_unknown,
                                            max_execs=int(os.environ.get("VERIF_SHRINK_EXECS", "250")))
                     o2 = run_scenario(mod, best)
                     if o2.violation == out.violation and not o2.error:
                         rec.update({"scenario": json.loads(jdump(best)), "digest": o2.digest,
                                     "detail": o2.detail, "info": o2.info, "shrink_execs": execs})
-                    else:  # should not happen (pure function); keep the original
+                    else:  # pure function: cannot happen, except for C19 mode=compiled (real scheduler)
                         rec.update({"scenario": json.loads(jdump(sc)), "digest": out.digest, "shrink_execs": -1})
                 if len(res["violations"]) < 40:
                     res["violations"].append(rec)
